@@ -4,7 +4,7 @@ from lin import Lin, entails_eq
 from paths import explore
 from sym import fmt, walk
 from callgraph import CallGraph
-from rules.common import adt_base, Anchors, path_calls, ret_kind, root_param, arg_loc
+from rules.common import calls_in_loops, adt_base, Anchors, path_calls, ret_kind, root_param, arg_loc
 import stdmodel as SM
 
 LEVEL = 'other'       # was 'proof': seeded changes twice found a channel the reduction had not listed (DESIGN.md §7.6), so the honest level is structural
@@ -291,6 +291,9 @@ def r07_5(ctx, A, pv):
                 n_em += 1
                 w = w[3]
             good = w is not None and w[0] == 'call' and w[1] == new.path and w[2] and w[2][0][0] == 'param'
+            if not good and w is not None and w[0] in ('havoc', 'phi') and calls_in_loops(f, lambda c: c in lib.fns or c == SM.IO_WRITE_ALL):
+                ctx.undecided(R, 'builder-keeps-writer:' + f.path, 'the header is written from inside a loop: the writer kept by the builder is a loop-carried value the rule does not follow', fn=f)
+                continue
             ctx.check(R, good, 'builder-keeps-writer:' + f.path, 'the builder does not keep the counting writer that received the header (its counter would not include the header bytes): %s' % fmt(w)[:120],
                       fn=f, detail='%d header emissions precede construction' % n_em)
 
